@@ -11,6 +11,8 @@ import (
 	"github.com/vektah/gqlparser/v2/gqlerror"
 )
 
+import "github.com/vektah/gqlparser/v2/verifhook"
+
 //nolint:staticcheck // We do not care about capitalized error strings
 var ErrUnexpectedType = fmt.Errorf("Unexpected Type")
 
@@ -94,6 +96,7 @@ type varValidator struct {
 }
 
 func (v *varValidator) validateVarType(typ *ast.Type, val reflect.Value) (reflect.Value, *gqlerror.Error) {
+	verifhook.Step(verifhook.SiteVarType)
 	currentPath := v.path
 	resetPath := func() {
 		v.path = currentPath
